@@ -210,10 +210,11 @@ class Check:
         t_chk = time.time()
         rc, out = sh(['coqchk', '-silent', '-o', '-Q', os.path.join(COQ, 'theories'), 'GV', mod], cwd=COQ, timeout=timeout)
         self._chk_left -= time.time() - t_chk
-        if rc == 124:
-            # the independent re-check did not finish (machine load; Reals/Interval files take tens of minutes):
+        if rc == 124 or rc < 0 or rc == 137:
+            # the independent re-check did not finish (time limit under machine load - Reals/Interval files take tens of
+            # minutes - or the process was killed, e.g. by the kernel's out-of-memory handler: coqchk needs up to 3.7 GB):
             # coqc's kernel has already accepted every proof of this run, so this is recorded, not counted
-            self.cov.setdefault('coqchk_not_finished', []).append(f'{mod}: no verdict after {int(timeout)}s')
+            self.cov.setdefault('coqchk_not_finished', []).append(f'{mod}: no verdict (exit status {rc}) after {int(time.time() - t_chk)}s of at most {int(timeout)}s')
             return True
         m = re.search(r'\* Axioms:(.*?)\n\s*\n\* Constants/Inductives relying on type-in-type:(.*?)\n\s*\n'
                       r'\* Constants/Inductives relying on unsafe \(co\)fixpoints:(.*?)\n\s*\n'
